@@ -447,6 +447,32 @@ type c17Seg map[string]any
 
 func c17Junk(n int) c17Seg { return c17Seg{"k": "junk", "n": c17Dec(n)} }
 
+// c17EmptyInverts: the wire formats whose STOCK decoder turns the empty byte string into the empty
+// payload (identity does; which compressed formats do is a fact about the decoders, established here
+// by asking them).  A zero-byte range can stand for an empty payload only under these formats.
+var c17EmptyInverts = sync.OnceValue(func() []int {
+	zs := []int{1}
+	for z := 2; z <= 6; z++ {
+		var out []byte
+		var err error
+		switch z {
+		case 4: // (c17Decode never takes zero bytes for a zstd / snappy stream when it tokenizes; here the decoders are asked)
+			out, err = c17Zstd.DecodeAll([]byte{}, nil)
+		case 6:
+			out, err = io.ReadAll(snappy.NewReader(bytes.NewReader([]byte{})))
+		default:
+			out, err = c17Decode(z, []byte{})
+		}
+		if err == nil && len(out) == 0 {
+			zs = append(zs, z)
+		}
+	}
+	return zs
+})
+
+// c17Zero: "there are zero bytes here" - with the formats under which that reads as the empty payload
+func c17Zero() c17Seg { return c17Seg{"k": "zero", "zs": c17EmptyInverts()} }
+
 func c17PayloadIDs(b c17Body) []string {
 	seen := map[string]bool{}
 	var res []string
@@ -497,13 +523,15 @@ func (t *c17Payloads) segments(body []byte, guide c17Body) []c17Seg {
 				} else {
 					segs = append(segs, c17Junk(d))
 				}
+			} else {
+				segs = append(segs, c17Zero())
 			}
 			pos += 5 + d
 		}
 		return segs
 	default:
 		if len(body) == 0 {
-			return []c17Seg{}
+			return []c17Seg{c17Zero()}
 		}
 		if z, p, ok := t.identify(body, cands); ok {
 			return []c17Seg{{"k": "data", "z": z, "p": p}}
@@ -534,6 +562,8 @@ func (t *c17Payloads) parseItems(body []byte, n int, cands []string) ([]c17Seg, 
 				return nil, false
 			}
 			segs = append(segs, c17Seg{"k": "data", "z": z, "p": p})
+		} else {
+			segs = append(segs, c17Zero())
 		}
 		tail, ok := t.parseItems(body[5+d:], n-1, cands)
 		if !ok {
@@ -668,8 +698,9 @@ func (t *c17Payloads) envelopes(body []byte, cands []string) []c17Seg {
 			return append(res, c17Seg{"k": "short", "flags": int(body[pos])})
 		}
 		data := body[pos+5 : pos+5+int(n)]
-		env := c17Seg{"k": "env", "flags": int(body[pos]), "z": 0, "p": ""}
+		env := c17Seg{"k": "env", "flags": int(body[pos]), "z": 0, "p": "", "zs": c17EmptyInverts()}
 		if len(data) > 0 {
+			env["zs"] = []int{}
 			if z, p, ok := t.identify(data, cands); ok {
 				env["z"], env["p"] = z, p
 			} else {
